@@ -146,6 +146,12 @@ fn enumerate(alphabet: &[Op], depth: usize, f: fn(&[Op]) -> Option<Fail>, total:
         loop {
             let ops: Vec<Op> = idx.iter().map(|i| alphabet[*i]).collect();
             *total += 1;
+            {
+                let mut g = WD_CUR.lock().unwrap();
+                g.clear();
+                g.extend_from_slice(&ops);
+            }
+            WD_TICK.fetch_add(1, std::sync::atomic::Ordering::Relaxed);
             if *total % 99_991 == 7 && samples.len() < 8 {
                 samples.push(op_json(&ops));
             }
@@ -174,9 +180,35 @@ fn enumerate(alphabet: &[Op], depth: usize, f: fn(&[Op]) -> Option<Fail>, total:
     }
 }
 
+// watchdog: a queue operation that never returns (a mutated sift loop) is reported with the sequence that was running
+static WD_TICK: std::sync::atomic::AtomicU64 = std::sync::atomic::AtomicU64::new(0);
+static WD_CUR: std::sync::Mutex<Vec<Op>> = std::sync::Mutex::new(Vec::new());
+fn watchdog() {
+    std::thread::spawn(|| {
+        let mut last = u64::MAX;
+        let mut same = 0;
+        loop {
+            std::thread::sleep(std::time::Duration::from_millis(250));
+            let t = WD_TICK.load(std::sync::atomic::Ordering::Relaxed);
+            if t == last {
+                same += 1;
+            } else {
+                same = 0;
+                last = t;
+            }
+            if same >= 20 {
+                let cur = WD_CUR.lock().unwrap().clone();
+                println!("{{\"scenarios\":{},\"samples\":[],\"bound\":\"exploration stopped at the first operation that did not return\",\"failures\":[{{\"check\":\"queue-operation-returns\",\"props\":\"C20\",\"count\":1,\"scenario\":{},\"detail\":\"the sequence had not finished after 5 s (every other one takes microseconds)\"}}]}}", t, op_json(&cur));
+                std::process::exit(0);
+            }
+        }
+    });
+}
+
 fn main() {
     let thorough = std::env::args().any(|a| a == "--thorough");
     panic::set_hook(Box::new(|_| {}));
+    watchdog();
     let mut total = 0u64;
     let mut samples = Vec::new();
     let mut first = BTreeMap::new();
